@@ -43,6 +43,8 @@ ASSUMPTIONS = [
 PRIMES = [2, 3, 5, 7, 11, 13, 17, 19, 23, 29, 31, 37]
 NTAB = 3
 L2INIT = 1e5      # default upper end of the routine's multiplier bracket
+DEFAULT_STOP_GAP = 0.1   # largest gap measured over the thorough lattice of all three tables: 0.0098
+GAPS = []
 
 
 def frac(v):
@@ -179,7 +181,7 @@ def problem(case):
     t = case['table']
     sizes, how = LAYOUTS[case['layout']]
     n = int(sum(sizes))
-    c = c_table(case['c'], t, n)
+    c = c_table(case['c'], t, n) * case.get('cscale', 1.0)     # cscale: magnitude of the objective (1 or 1e-9)
     xmin, xmax, bkw = bounds_table(case['bounds'], t, n)
     x0 = start_table(case['start'], t, n, xmin, xmax, case['move'])
     maxvol = maxvol_table(case['maxvol'], n, xmin, xmax)
@@ -190,6 +192,8 @@ def admissible(case):
     sizes, how, n, c, xmin, xmax, bkw, x0, maxvol = problem(case)
     if np.any(x0 <= 0):
         return 'start design not strictly positive (objective c/x undefined)'
+    if case.get('xdtype') == 'int' and not np.array_equal(x0, np.round(x0)):
+        return 'start design is not integer-valued'
     if np.any(c == 0) and np.any(oc.full(xmin, n) <= 0):
         return 'zero-gradient variable with xmin = 0 (it is driven to x = 0 where c/x is 0/0)'
     if case['kind'] == 'comp' and float(np.dot(c, x0)) <= 0:
@@ -207,6 +211,9 @@ def run_once(case, tol, stop):
     sizes, how, n, c, xmin, xmax, bkw, x0, maxvol = problem(case)
     offs = np.concatenate([[0], np.cumsum(sizes)]).astype(int)
     sigs = [pym.Signal(f'x{i}', x0[offs[i]:offs[i + 1]].copy()) for i in range(len(sizes))]
+    if case.get('xdtype') == 'int':     # integer-typed start design (np.ones(n, dtype=int)): a legitimate input
+        for s_ in sigs:
+            s_.state = s_.state.astype(int)
     order = list(range(len(sizes)))
     if case.get('rev'):
         order = order[::-1]
@@ -216,7 +223,7 @@ def run_once(case, tol, stop):
             sigs, log)
     fn = pym.Network(m)
     kw = dict(bkw)
-    kw.update(verbosity=0, maxit=int(case['maxit']), move=case['move'], l1l2tol=tol)
+    kw.update(verbosity=0, maxit=int(case['maxit']), move=case['move'], l1l2tol=tol * case.get('cscale', 1.0))
     if maxvol is not None:
         kw['maxvol'] = maxvol
     if stop == 'off':
@@ -255,6 +262,8 @@ def judge_run(case, tol, stop):
             V.append({'check': check, 'signature': s, 'detail': detail, 'case': narrowed})
 
     designs, vol, exc, nresp = run_once(case, tol, stop)
+    tol_user = tol
+    tol = tol * case.get('cscale', 1.0)      # the multiplier scales with the objective: so does its bisection tolerance
     if exc is not None:
         in_repo, where = classify_exception(exc)
         if not in_repo:
@@ -267,7 +276,8 @@ def judge_run(case, tol, stop):
     shapes_ok = True
     for k, d in enumerate(designs):
         nchecks += 1
-        if len(d) != len(sizes) or any(np.shape(p) != (sz,) or np.asarray(p).dtype.kind != 'f'
+        own_start = k == 0 and case.get('xdtype') == 'int'      # the start design is the user's own integer array
+        if len(d) != len(sizes) or any(np.shape(p) != (sz,) or (np.asarray(p).dtype.kind != 'f' and not own_start)
                                        for p, sz in zip(d, sizes)):
             bad('writeback_shape', {}, step=k, got=[list(np.shape(p)) for p in d], want=[[s] for s in sizes])
             shapes_ok = False
@@ -356,6 +366,18 @@ def judge_run(case, tol, stop):
     if kind == 'inv' and exc is None and shapes_ok and flat:
         if stop != 'off':
             tags.add('default_stop')
+            judged = not V and case['start'] != 'near_out' and case['c'] != 'zero'   # (measured on this sub-lattice)
+            opt = oc.analytic_optimum_inv(c, xmin, xmax, vol, tol) if judged else None
+            if opt is not None and opt['mu'][0] < L2INIT - tol:
+                # with the default stopping rules (relative change of objective / design below 1e-4) the run ends near
+                # the optimum: the objective gap is bounded by DEFAULT_STOP_GAP (measured margin, DESIGN section 6)
+                nchecks += 1
+                fe_ = oc.objective('inv', c, flat[-1])
+                gap = (fe_ - opt['f_opt']) / abs(opt['f_opt'])
+                GAPS.append(gap)
+                if gap > DEFAULT_STOP_GAP:
+                    bad('converge', {'what': 'objective', 'stop': 'default'}, f_end=fe_, f_opt=opt['f_opt'],
+                        x_end=flat[-1], x_opt=opt['x_opt'], iterations=nresp, rel_gap=gap)
         elif V:
             tags.add('convergence_not_judged_after_iteration_violation')
         else:
@@ -390,7 +412,8 @@ def execute(case):
         return {'skipped': why}
     states = trans = checks = 0
     keys, tags, obs, V = [], set(), [], []
-    base = '|'.join(str(case[k]) for k in ('layout', 'rev', 'kind', 'c', 'start', 'bounds', 'move', 'maxvol', 'table'))
+    base = '|'.join(str(case.get(k)) for k in ('layout', 'rev', 'kind', 'c', 'start', 'bounds', 'move', 'maxvol', 'table',
+                                                'cscale', 'xdtype'))
     for tol, stop in case['runs']:
         r = judge_run(case, tol, stop)
         states += max(r['iterations'], 1)
@@ -473,10 +496,27 @@ def _cases(ax, t):
     return out
 
 
+VARIANT_AXES = dict(
+    layouts=['one3_bare', 'two_2+3', 'arr3+len1'], kind_c=[['inv', 'asc'], ['inv', 'wide'], ['comp', 'asc']],
+    starts=['u03', 'hi', 'mixed'], bounds=['default', 'scalar', 'vec'], moves=[0.2, 1.0], maxvols=['f03', 'f06'],
+    runs=[[1e-4, 'default'], [1e-4, 'off']])
+# objective of magnitude 1e-9 (bisection tolerance scaled with it); integer-typed start design
+VARIANTS = [{'cscale': 1e-9}, {'xdtype': 'int'}]
+
+
+def variant_cases(t):
+    for var in VARIANTS:
+        for c in _cases(VARIANT_AXES, t):
+            yield dict(c, **var)
+
+
 def generate(tier, seed):
     t = seed % NTAB
     if tier == 'quick':
+        yield {'__level__': 'main lattice'}
         yield from _cases(Q_AXES, t)
+        yield {'__level__': 'objective magnitude 1e-9 / integer-typed start'}
+        yield from variant_cases(t)
         return
     seen = set()
     for name, ax in T_LEVELS:
@@ -486,3 +526,5 @@ def generate(tier, seed):
             if k not in seen:
                 seen.add(k)
                 yield c
+    yield {'__level__': 'objective magnitude 1e-9 / integer-typed start'}
+    yield from variant_cases(t)
